@@ -10,6 +10,7 @@ import PotasscoVerif.Drv.Signals
 import PotasscoVerif.Drv.StringBuilder
 import PotasscoVerif.Drv.StringConvert
 import PotasscoVerif.Drv.OptIndex
+import PotasscoVerif.Drv.TheoryData
 open PotasscoVerif.Drv
 
 def dispatch (line : String) : String :=
@@ -26,6 +27,7 @@ def dispatch (line : String) : String :=
   | "sb" :: args => runSB args
   | "sc" :: args => runSC args
   | "oi" :: args => runOI args
+  | "td" :: args => runTD args
   | _ => "bad-component"
 
 partial def loop (h : IO.FS.Stream) (out : IO.FS.Stream) : IO Unit := do
